@@ -483,8 +483,9 @@ func applyPush(ctx Context, doc bsonkit.Doc, name, path string, v interface{}) e
 				newArr = newArr[:int(s)]
 			}
 		default: // s < 0
+			// (the negation of the smallest integer is not positive: keep everything)
 			keep := -int(s)
-			if keep < len(newArr) {
+			if keep > 0 && keep < len(newArr) {
 				newArr = newArr[len(newArr)-keep:]
 			}
 		}
